@@ -128,6 +128,45 @@ def main():
                         em.violation("C19: att2idx(%r) = %r, expected %r" % (nm, p.att2idx(nm), want), {"name": nm}, {})
                     if p.att2name(nm) != key:
                         em.violation("C19: att2name(%r) = %r, expected %r" % (nm, p.att2name(nm), key), {"name": nm}, {})
+        # the helpers are functions of the name alone: the same answers in any order of asking (direct only).  Orders: by field digits
+        # (so that DF011_01 and IDF011_01 are neighbours), reversed, shuffled, and every name asked right after each name whose field
+        # key followed by "_" occurs inside it (DF011_ in IDF011_01, PRN_ in CELLPRN_03, ...)
+        import re as _re
+        short = {nm: key for nm, key in names.items() if len(nm) < 64}
+        base = {nm: (p.datadesc(nm) if True else None, p.att2idx(nm), p.att2name(nm)) for nm in sorted(short)}
+        wrong = {nm for nm in short if base[nm][0] != tabs.DF[short[nm]][3]}
+
+        def ask(order, what):
+            for prev, nm in zip([None] + order[:-1], order):
+                em.direct_evaluations += 1
+                try:
+                    got = (p.datadesc(nm), p.att2idx(nm), p.att2name(nm))
+                except Exception as e:  # noqa
+                    got = repr(e)
+                if got != base[nm] and nm not in wrong:
+                    em.violation("C19: the helpers answer differently for %r when asked %s (right after %r)" % (nm, what, prev),
+                                 {"name": nm, "asked_before": prev, "order": what}, {"got": repr(got)[:200], "first_answer": repr(base[nm])[:200]})
+                    return False
+            return True
+        digits = lambda nm: (_re.sub(r"\D", "", short[nm]), nm.split("_", 1)[1:] or [""], nm)   # noqa: E731
+        order1 = sorted(short, key=digits)
+        ok_ = ask(order1, "in order of field number") and ask(order1[::-1], "in reverse order of field number")
+        for r in range(3 if thorough else 1):
+            o_ = list(short)
+            rng.shuffle(o_)
+            ok_ = ok_ and ask(o_, "in a shuffled order")
+        pairs = []
+        keyset = sorted(set(short.values()))
+        for nm in short:
+            for k2 in keyset:
+                if k2 != short[nm] and (k2 + "_") in nm:
+                    src = [x for x in short if short[x] == k2 and x != k2][:2] or [k2]
+                    for a_ in src:
+                        pairs += [a_, nm]
+        if ok_ and pairs:
+            ask(pairs, "after a name of a field whose key is contained in it")
+        em.count("order_passes", 5)
+        em.count("confusable_pairs", len(pairs) // 2)
         em.samples = [{"name": n} for n in list(names)[:5]]
     else:  # C18
         msm = list(tabs.M)
@@ -146,6 +185,12 @@ def main():
                 if b is not None and len(b.payload) <= 1023:
                     pays.append((b.ident, b.payload))
                     em.count("msm.shape.%dx%dx%d" % sh[1:4])
+        # messages larger than any frame can carry (constructor only): a thousand and more cells, four-digit indices
+        for ident, sh in (("1071", ("shape", 64, 16, 1000, 1)), ("1077", ("shape", 64, 17, 1024, 1)), ("1121", ("shape", 64, 32, 2047, 1)))[: (3 if thorough else 2)]:
+            b = gen.build(tabs, ident, rng, maskmode=sh, label=1, max_bits=400000)
+            if b is not None:
+                pays.append((b.ident, b.payload))
+                em.count("msm.huge.%d-cells" % b.counts.get("NCell", 0))
         # helper state across calls: for every MSM type an EMPTY message (no satellites) first, then a populated one, then empty again
         seqs = []
         for ident in msm:
@@ -174,7 +219,8 @@ def main():
             for label in ((1, 2) if ident in tabs.M else (1,)):
                 exp, fl, m, r, h = obs_arrays(p, payload, label)
                 bl = vlib.blob(payload)
-                em.add("obs_arrays T %s (unpack %s)" % (vlib.zlit(label), bl), exp, fl, "array helpers on a %s message" % ident,
+                if len(payload) <= 1400 or (thorough and label == 1 and len(payload) < 2600):      # the model walks association lists: huge messages are mostly direct-only
+                  em.add("obs_arrays T %s (unpack %s)" % (vlib.zlit(label), bl), exp, fl, "array helpers on a %s message" % ident,
                        {"payload": payload.hex(), "labelmsm": label}, {"parse_msm": repr(r)[:600], "parse_4076_201": repr(h)[:600]},
                        explain="match construct T (Some (unpack %s)) %s with Ok o => (parse_msm T o, parse_4076_201 T o) | _ => (Unmodelled \"construct\", Unmodelled \"construct\") end" % (bl, vlib.zlit(label)),
                        size=len(payload), spec=["arrays", payload.hex(), label])
